@@ -395,7 +395,7 @@ impl Workload for Histories {
 pub fn run(ctx: &Ctx) -> i32 {
     let mut acc = Acc::new(ctx);
     let wl = Histories {
-        n: if ctx.quick() { 640 } else { 5000 },
+        n: if ctx.quick() { 1000 } else { 20_000 },
         max_steps: if ctx.quick() { 25 } else { 60 },
     };
     acc.pool(&wl, "c15", true);
